@@ -14,18 +14,30 @@ histories for a failing input and reports the violation either way).
 namespace SaoVerif
 
 theorem C02_decision_skeleton_as_modelled :
-    Generated.Skel.x_sao_abci_go = Expected.Skel.x_sao_abci_go ∧
-    Generated.Skel.x_sao_keeper_expire_management_go = Expected.Skel.x_sao_keeper_expire_management_go ∧
-    Generated.Skel.x_sao_keeper_timeout_management_go = Expected.Skel.x_sao_keeper_timeout_management_go ∧
-    Generated.Skel.x_node_abci_go = Expected.Skel.x_node_abci_go ∧
-    Generated.Skel.x_node_keeper_node_go = Expected.Skel.x_node_keeper_node_go ∧
-    Generated.Skel.x_node_keeper_reputation_go = Expected.Skel.x_node_keeper_reputation_go ∧
-    Generated.Skel.x_node_keeper_shard_pledge_management_go = Expected.Skel.x_node_keeper_shard_pledge_management_go ∧
-    Generated.Skel.x_model_abic_go = Expected.Skel.x_model_abic_go ∧
-    Generated.Skel.x_sao_keeper_msg_server_renew_go = Expected.Skel.x_sao_keeper_msg_server_renew_go ∧
-    Generated.Skel.x_market_keeper_pool_management_go = Expected.Skel.x_market_keeper_pool_management_go ∧
-    Generated.Skel.x_node_types_params_go = Expected.Skel.x_node_types_params_go ∧
-    Generated.Skel.x_node_types_genesis_go = Expected.Skel.x_node_types_genesis_go := by
+    [Generated.Skel.x_sao_abci_go,
+     Generated.Skel.x_sao_keeper_expire_management_go,
+     Generated.Skel.x_sao_keeper_timeout_management_go,
+     Generated.Skel.x_node_abci_go,
+     Generated.Skel.x_node_keeper_node_go,
+     Generated.Skel.x_node_keeper_reputation_go,
+     Generated.Skel.x_node_keeper_shard_pledge_management_go,
+     Generated.Skel.x_model_abic_go,
+     Generated.Skel.x_sao_keeper_msg_server_renew_go,
+     Generated.Skel.x_market_keeper_pool_management_go,
+     Generated.Skel.x_node_types_params_go,
+     Generated.Skel.x_node_types_genesis_go] =
+    [Expected.Skel.x_sao_abci_go,
+     Expected.Skel.x_sao_keeper_expire_management_go,
+     Expected.Skel.x_sao_keeper_timeout_management_go,
+     Expected.Skel.x_node_abci_go,
+     Expected.Skel.x_node_keeper_node_go,
+     Expected.Skel.x_node_keeper_reputation_go,
+     Expected.Skel.x_node_keeper_shard_pledge_management_go,
+     Expected.Skel.x_model_abic_go,
+     Expected.Skel.x_sao_keeper_msg_server_renew_go,
+     Expected.Skel.x_market_keeper_pool_management_go,
+     Expected.Skel.x_node_types_params_go,
+     Expected.Skel.x_node_types_genesis_go] := by
   decide +kernel
 
 end SaoVerif
